@@ -105,6 +105,13 @@ def c12_family(quick=False):
                  mix={"X": "store_content", "Y": "remove_content"}, acts=("0", "5", "mi", "v")))
     out.append(G([("X", A), ("Y", B)], "seq< X, must< sor< Y, seq< X, raise< Y > > > >, opt< X > >", ["raise"],
                  mix={"X": "discard_empty", "Y": "store_content", "G": "fold_one"}, acts=("0", "mi")))
+    # vetoing bool actions on named rules (family "v"): a vetoed match is a local failure and must leave no node
+    out.append(G([("K", "seq< one< 'a' >, one< 'b' > >"), ("N", "plus< one< 'a', 'b' > >")], "seq< sor< K, N >, opt< K >, star< any > >", ["veto"],
+                 mix={"K": "store_content", "N": "store_content", "G": "store_content"}, acts=("0", "v")))
+    out.append(G([("K", "plus< one< 'a' > >"), ("N", "seq< K, opt< one< 'b' > > >"), ("M", "sor< seq< N, one< 'c' > >, N, any >")], "star< M >", ["veto"],
+                 mix={"K": "store_content", "N": "fold_one", "M": "store_content"}, acts=("0", "v")))
+    out.append(G([("K", "seq< one< 'a' >, opt< one< 'b' > > >"), ("N", "seq< at< K >, K >")], "seq< opt< N >, star< sor< K, any > > >", ["veto"],
+                 mix={"K": "store_content", "N": "remove_content"}, acts=("0", "v")))
     # the recorded finding: the rule's own action throws, try_catch continues
     out.append(G([("A", A + ", c12::thrower"), ("B", A), ("T", "try_catch_any_return_false< A >")], "sor< T, B >", ["witness", "own_throw"],
                  mix={"A": "store_content", "B": "store_content", "T": "store_content", "G": "store_content"}, acts=("0", "t")))
